@@ -434,6 +434,10 @@ func runC13(c *engine.Ctx) {
 
 	// ---- R11 the group's route is deleted under the key it was added under (shared with C06.R3) ----
 	checkHostIndexLowered(c, "R11")
+
+	// ---- R12 a start-up that fails after some joins succeeded leaves those groups again (shared with C10.R2): otherwise
+	// the group keeps a member whose proxy never ran, and connections handed to it are lost ----
+	checkRunRollbacks(c, "R12")
 }
 
 // checkCleanupAfterAcquire (C13.R2 second half, also C10.R10): a closure that releases a registration is queued for
